@@ -928,6 +928,17 @@ class Interp:
             ctx.assume(z3.ForAll([j], z3.Implies(z3.And(j >= 0, j < nn),
                                                  z3.Select(na, j) == z3.Select(b.a, j + lo))))
             return ctx.alloc(VList(b.ty, z3.simplify(nn), na))
+        if isinstance(b, VPy) and isinstance(b.py, str) and sl.step is None:
+            # concrete text with concrete bounds
+            def cidx(e):
+                if e is None:
+                    return None
+                v = ctx.deref(self.eval(e))
+                t = z3.simplify(v.t) if isinstance(v, VInt) else None
+                if t is None or not z3.is_int_value(t):
+                    self.unsupported(node, "symbolic slice bound on concrete text")
+                return t.as_long()
+            return VPy(b.py[cidx(sl.lower):cidx(sl.upper)])
         self.unsupported(node, "slice of %r" % (b,))
 
     def ex_UnaryOp(self, e):
